@@ -3,6 +3,8 @@
 import json
 props=[json.loads(l) for l in open('/verif/properties.jsonl')]
 CLAIMED = {
+ 'C09': ("inputs of 1-2 (quick) / 1-3 (thorough) positions, each a symbolic ASCII byte or one of five non-ASCII runes, under five operator tables built to collide (.^. => = ==>, as assert_, :: :=, ?. ?? ...): the real lexer - its regular expressions executed by a symbolic leftmost-first matcher over the compiled regexp/syntax program - either fails with a syntax error or yields tokens that are ordered, non-overlapping, separated by white space only, with Lexeme = text of the index range and exact line/column, longest-match among registered symbolic operators, whole-word keywords/true/false/identifier-like operators, and '.'/'?' never split from a longer operator; 25 literal forms are single tokens in three contexts",
+         "input length <= 3 positions; symbolic bytes are ASCII (non-ASCII runes only as the five concrete ones); the symbolic regexp matcher is trusted (validated only by native replay)"),
  'C12': ("through Eval, Compile + Callable, Debug and the raw-environment API: 25 programs that fail syntactically, statically or at run time (index, key, modulo, invalid pattern) with symbolic operands report the failure through the error result and never panic; 12 host values (nil, typed nil, nil pointers inside, unsupported kinds, mixed interface slices, non-string map keys, scalars) x 4 programs and 46 malformed / adversarial source strings never panic",
          "the timing clauses (polynomial compile time, prompt evaluation) are NOT claimed: wall-clock is not a solver property; source strings are a fixed adversarial list, not symbolic bytes (the lexer's regular expressions are native)"),
  'C19': ("closure.DebugCompile against closure.Compile on 24 single-line sources (ASCII and non-ASCII identifiers and strings, lazy branches, failing sub-terms, redundant spaces) x 72 value combinations: same value or failure; the record (read through a verif-tagged accessor) is exactly the reference walker's sequence of (value, column) for the variable / call / member / subscript terms actually evaluated; Render never fails, keeps the source as first line and shows every recorded value",
